@@ -9,11 +9,10 @@
 
   Part 2 (`string_refines_*`): the functions the Python really runs work on the joined strings `module#a.b.c`. When every
   name is a non-empty string without `.` and `#` (every Python identifier, and tranp's own scope words such as `if@115`) the
-  string layer computes exactly the encoding of the abstract layer — for every function that uses delimiter-aware
-  operations (`DSN.join`, `split('#')`, `split('.')`), and for the string-LENGTH comparison of `__allow_scope` in the only
-  context it is used in.  The one bare `startswith` on user-derived strings (`VarsCollector._merged`) is NOT a refinement:
-  `merged_refines_counterexample` (names `ab`/`abc`, and the reachable `for@10`/`for@107`), with the sound half proved as
-  `merged_refines_partial`.
+  string layer computes exactly the encoding of the abstract layer — every function uses delimiter-aware operations
+  (`DSN.join`, `split('#')`, `split('.')`, `ModuleDSN.expanded`), and the one string-LENGTH comparison (`__allow_scope`) is
+  safe in the only context it is used in.  `VarsCollector._merged` used a bare `startswith` until 526fc7c (refuted then by the
+  witnesses `for@10`/`for@107` and `ab`/`abc`); the repaired element-wise test is proved to refine (`string_refines_merging`).
 -/
 import Tranp.Lemmas.Scope
 import Tranp.Lemmas.ScopeStr
@@ -202,73 +201,51 @@ example :
     ScopeStr.makeScopes (ScopeStr.encTbl demoTbl) (ScopeStr.encNode demoNode) = [['m','#','a','b','.','f'], ['m']] := by
   decide +kernel
 
-/-! ### the bare `startswith` of `VarsCollector._merged` -/
+/-! ### declaration merging (`VarsCollector._merged`, repaired in 526fc7c: element-wise scope prefix) -/
 
 open Tranp.ScopeStr in
-/-- Full statement (FALSE on the current code): merging on strings is the encoding of merging on element lists for all
-    well-formed declarations of one module. -/
-def merged_refines_statement : Prop :=
-  ∀ decl add : List (DVar Str Str), (∀ v ∈ decl ++ add, DVarOk v) →
-    ScopeStr.merged (decl.map encDVar) (add.map encDVar) = (Scope.merged decl add).map encDVar
+/-- `_merged` and `_collect_impl` on the joined strings = encodings of merging on element lists, for all well-formed
+    declarations (this statement was FALSE for the bare `startswith` the code used before 526fc7c; the former witnesses are
+    the regression examples below and corpus/C08). -/
+theorem string_refines_merging (decl add : List (DVar Str Str)) (h : ∀ v ∈ decl ++ add, DVarOk v)
+    (block : List (Stmt (DVar Str Str))) (hb : Stmt.AllBlock DVarOk block) :
+    ScopeStr.merged (decl.map encDVar) (add.map encDVar) = (Scope.merged decl add).map encDVar ∧
+    ScopeStr.collect (Stmt.mapBlock encDVar block) = (Scope.collect block).map encDVar := by
+  constructor
+  · exact mergedG_map_on DVar.fullyname Scope.related DVarS.fullyname ScopeStr.related encDVar DVarOk
+      encDVar_key_iff related_enc decl add (fun x hx => h x (by simp [hx])) (fun x hx => h x (by simp [hx]))
+  · have := collectBlockG_map_on DVar.fullyname Scope.related DVarS.fullyname ScopeStr.related encDVar DVarOk
+      encDVar_key_iff related_enc [] block (by intro x hx; simp at hx) hb
+    simpa [ScopeStr.collect, Scope.collect] using this
 
 def mkVar (scope : List Str) (name : Str) : DVar Str Str :=
   ⟨⟨['m'], scope ++ [name]⟩, [name], ⟨['m'], scope⟩⟩
 
-/-- witness 1 (reachable, reproduced on the real code): two SIBLING loops `for@10` and `for@107` of one function declare `x`;
-    the bare `startswith` takes the second for nested in the first and drops its declaration. -/
+/-- former witness 1: two SIBLING loops `for@10` and `for@107` of one function declare `x` -/
 def witnessIds : List (DVar Str Str) × List (DVar Str Str) :=
   ([mkVar [['f'], ['f','o','r','@','1','0']] ['x']], [mkVar [['f'], ['f','o','r','@','1','0','7']] ['x']])
 
-/-- witness 2 (user names that share a prefix): scopes `m#ab` and `m#abc`. -/
+/-- former witness 2: scopes `m#ab` and `m#abc` -/
 def witnessNames : List (DVar Str Str) × List (DVar Str Str) :=
   ([mkVar [['a','b']] ['x']], [mkVar [['a','b','c']] ['x']])
 
-theorem merged_refines_counterexample : ¬ merged_refines_statement := by
-  intro h
-  have h1 := h witnessIds.1 witnessIds.2 (by decide +kernel)
-  revert h1
+/-- regression: on both former witnesses the two layers agree now, and the second declaration is kept -/
+example :
+    ScopeStr.merged (witnessIds.1.map ScopeStr.encDVar) (witnessIds.2.map ScopeStr.encDVar) =
+      (Scope.merged witnessIds.1 witnessIds.2).map ScopeStr.encDVar ∧
+    (Scope.merged witnessIds.1 witnessIds.2).length = 2 ∧
+    ScopeStr.merged (witnessNames.1.map ScopeStr.encDVar) (witnessNames.2.map ScopeStr.encDVar) =
+      (Scope.merged witnessNames.1 witnessNames.2).map ScopeStr.encDVar ∧
+    (ScopeStr.merged (witnessNames.1.map ScopeStr.encDVar) (witnessNames.2.map ScopeStr.encDVar)).length = 2 := by
   decide +kernel
 
-/-- the user-name witness violates the statement as well -/
-example : ScopeStr.merged (witnessNames.1.map ScopeStr.encDVar) (witnessNames.2.map ScopeStr.encDVar) ≠
-    (Scope.merged witnessNames.1 witnessNames.2).map ScopeStr.encDVar := by
-  decide +kernel
-
-open Tranp.ScopeStr in
-/-- Proved half: the bare `startswith` never MISSES a declaration in the same or an enclosing scope (element-wise prefix ⇒
-    string prefix); what fails is the converse. -/
-theorem merged_refines_partial (d a : DVar Str Str) (h : Scope.related d a = true) :
-    ScopeStr.related (encDVar d) (encDVar a) = true :=
-  related_of_prefix h
-
-example : Scope.related (mkVar [['f']] ['x']) (mkVar [['f'], ['i','f','@','3']] ['x']) = true := by decide +kernel
-
-/-- declarations of one module whose scope elements are position-wise prefix-free: no scope element is a proper string prefix
-    of the element at the same position of another declaration's scope -/
-def PrefixFree (mod : Str) (vs : List (DVar Str Str)) : Prop :=
-  ∀ v ∈ vs, ScopeStr.DVarOk v ∧ v.scope.mod = mod ∧
-    ∀ w ∈ vs, ∀ p ∈ v.scope.path.zip w.scope.path, Str.startsWith p.2 p.1 = true → p.1 = p.2
-
-open Tranp.ScopeStr in
-/-- Proved part, exact: the bare `startswith` IS delimiter-safe — merging on strings = encoding of merging on element lists —
-    for declarations of one module whose scope elements are position-wise prefix-free. (User names never differ between the
-    declarations of one function, but the ids in `for@10` / `for@107` do: this hypothesis is what the real code lacks.) -/
-theorem merged_refines_prefixFree (mod : Str) (decl add : List (DVar Str Str)) (h : PrefixFree mod (decl ++ add)) :
-    ScopeStr.merged (decl.map encDVar) (add.map encDVar) = (Scope.merged decl add).map encDVar := by
-  unfold ScopeStr.merged Scope.merged
-  refine mergedG_map_on DVar.fullyname Scope.related DVarS.fullyname ScopeStr.related encDVar
-    (fun v => v ∈ decl ++ add) ?_ ?_ decl add (fun x hx => by simp [hx]) (fun x hx => by simp [hx])
-  · intro a b ha hb
-    constructor
-    · intro e; exact encKey_inj _ _ (h a ha).1.1 (h b hb).1.1 e
-    · intro e; simp only [encDVar, e]
-  · intro a b ha hb
-    exact related_enc_prefixFree a b (h a ha).1 (h b hb).1 ((h a ha).2.1.trans (h b hb).2.1.symm)
-      (fun p hp => (h a ha).2.2 b hb p hp)
-
-instance (mod : Str) (vs : List (DVar Str Str)) : Decidable (PrefixFree mod vs) := by unfold PrefixFree; infer_instance
-
-example : PrefixFree ['m'] [mkVar [['f']] ['x'], mkVar [['f'], ['i','f','@','3']] ['x'], mkVar [['f'], ['f','o','r','@','7']] ['x']] := by
+/-- non-vacuity: a nested block of well-formed declarations; the inner re-declaration of `x` is merged away -/
+example :
+    (∀ v ∈ witnessIds.1 ++ witnessIds.2, ScopeStr.DVarOk v) ∧
+    Stmt.AllBlock ScopeStr.DVarOk [Stmt.mk [[mkVar [['f']] ['x']]] [[Stmt.mk [[mkVar [['f'], ['i','f','@','3']] ['x']]] []]]] ∧
+    (Scope.collect [Stmt.mk [[mkVar [['f']] ['x']]] [[Stmt.mk [[mkVar [['f'], ['i','f','@','3']] ['x']]] []]]]).length = 1 := by
+  refine ⟨by decide +kernel, ?_, by decide +kernel⟩
+  simp only [Stmt.AllBlock, Stmt.All, Stmt.AllBlocks, and_true]
   decide +kernel
 
 end Tranp.C08
